@@ -457,7 +457,13 @@ class Factory:
             exe = self.bins[self.shard_of[cid]]
             lines = []
             for v in c["vectors"]:
-                key = "%s:%s/%s" % (v["kind"], cid, v["target"])
+                tgt = v["target"]
+                if v["kind"] == "enum" and tgt.startswith("@enum"):
+                    # "@enum" / "@enum:<n>": the n-th GraphQL enum discovered in the emitted items (not predicted)
+                    ens = self.disc.get(cid, {}).get("enums", [])
+                    n = int(tgt.split(":")[1]) if ":" in tgt else 0
+                    tgt = "%s/%s" % (ens[n]["module"], ens[n]["name"]) if n < len(ens) else "no-enum-discovered"
+                key = "%s:%s/%s" % (v["kind"], cid, tgt)
                 lines.append(json.dumps({"key": key, "vid": v["id"], "input": v["input"]}))
             try:
                 p = subprocess.run([exe], input=("\n".join(lines) + "\n").encode(), capture_output=True, timeout=300)
